@@ -81,7 +81,9 @@ theorem stage2_sameMap {l₁ l₂ : List (Nat × Dec)} (h : SameMap l₁ l₂) (
 theorem visit_sameMap {l₁ l₂ : List (Nat × Dec)} (h : SameMap l₁ l₂) (oc : Nat) (ov m : Dec) (mo : List Nat) (thr : Int)
     (f : FInfo) (i : Nat) : visit oc ov m mo l₁ thr f i = visit oc ov m mo l₂ thr f i := by
   unfold visit
-  rw [stage2_sameMap h]
+  cases f.item i with
+  | none => rfl
+  | some pe => simp only [stage2_sameMap h]
 
 theorem loop_sameMap {l₁ l₂ : List (Nat × Dec)} (h : SameMap l₁ l₂) (oc : Nat) (ov m : Dec) (mo : List Nat) (thr : Int) :
     ∀ (q : List Nat) (f : FInfo), loop oc ov m mo l₁ thr q f = loop oc ov m mo l₂ thr q f
@@ -109,7 +111,8 @@ theorem wagerO_sameMap (s : State) (c : Nat) (tk : Tk) (u : Nat) (a : Int) (pl :
     wagerO s c tk u a { pl with allOdds := l₂ } = wagerO s c tk u a pl := by
   have hany : (fun o => l₂.any (fun x => x.1 == o)) = (fun o => pl.allOdds.any (fun x => x.1 == o)) :=
     funext fun o => (h.any_eq o).symm
+  have hbet : ∀ ov fs, newBet s c u { pl with allOdds := l₂ } ov fs = newBet s c u pl ov fs := fun _ _ => rfl
   unfold wagerO
-  simp only [← hall, ← h.card_eq, hany, ← processWager_sameMap h]
+  simp only [← hall, ← h.card_eq, hany, ← processWager_sameMap h, hbet]
 
 end Sge.Core
